@@ -8,7 +8,11 @@ impl NodeController {
         match self.append_with_retry(&wal_key, data).await {
             Ok(_) => {
                 tracing::debug!("handle_rpc: append success for {}", wal_key);
+                #[cfg(feature = "verif")]
+                crate::verif_events::sched_point("ctl_after_append");
                 self.record_append(&wal_key, 1).await; // 1 entry appended
+                #[cfg(feature = "verif")]
+                crate::verif_events::sched_point("ctl_before_maybe_rollover");
                 if let Some((topic, segment)) = parse_wal_key(&wal_key) {
                     if let Err(e) = self.maybe_rollover(&topic, segment).await {
                         tracing::warn!(
